@@ -22,10 +22,18 @@
 //	                                        answers 200; fail = forwarded, server answers 500; err = transport error,
 //	                                        the server never sees it
 //	stop <dr>                               Manager.Stop and wait for Run to return
+//	park <tag>.<e>                          second gate: the NEXT nextBatch() of that (running) loop parks its goroutine at
+//	                                        verifhook point "notifier.batchTaken", i.e. after the batch left the queue and
+//	                                        BEFORE sendAll encodes it; everything the following ops do (send -> add to the
+//	                                        same queue, overflow, set changes, Stop) happens between take and encode.
+//	                                        No effect (`none`) if the loop does not run, QueueCapacity is 0, the loop is
+//	                                        already armed, or a goroutine of that URL is still parked there.
+//	unpark <tag>.<e>                        let the goroutine parked there continue: it encodes its batch and the request
+//	                                        arrives at the Options.Do gate (`unpark:<ids>`)
 //	<dr> = pattern over o|f|x (ok/fail/err) answering the requests that arrive *during* the op (drain on
 //	       shutdown / on removal), per URL, cyclically.
 //
-// output of every op: `<res> | ams=… | held=… | m=… | rx=… | log=…`
+// output of every op: `<res> | ams=… | held=… | m=… | rx=… | log=… | pre=…`
 //
 //	res   ok | none | stopped | bad | rel:<ids>:<verdict> | dr:<name>:<ids>:<v>;…  (+ ` stuck:<name>` / ` uncounted:<name>` /
 //	      ` unexpected:<name>:<ids>` when the notifier did not do what the harness waited for)
@@ -35,6 +43,7 @@
 //	      a URL with only queue_length present is omitted, see snapshot)
 //	rx    what the fake Alertmanagers received during the op: name:ids:status, per URL in arrival order
 //	log   the notifier's drop warnings during the op: name:full:<n> | name:big:<n> | name:nodrain:<n>
+//	pre   loops whose goroutine is parked at "notifier.batchTaken" (batch taken, not yet encoded), sorted
 //
 // ids inside a batch are joined by '.', lists by ','.
 package main
@@ -65,6 +74,7 @@ import (
 	"github.com/prometheus/prometheus/model/labels"
 	"github.com/prometheus/prometheus/model/relabel"
 	"github.com/prometheus/prometheus/notifier"
+	"github.com/prometheus/prometheus/util/verifhook"
 
 	"verif/harness/h"
 )
@@ -166,6 +176,7 @@ type parked struct {
 type gate struct {
 	arrivals chan *parked
 	epoch    int64
+	done     chan struct{} // closed at the end of the case: every request fails at once
 }
 
 func (g *gate) do(ctx context.Context, client *http.Client, req *http.Request) (*http.Response, error) {
@@ -178,10 +189,17 @@ func (g *gate) do(ctx context.Context, client *http.Client, req *http.Request) (
 		}
 	}
 	p := &parked{name: loopName(req.URL), ids: idsOfBody(body), verdict: make(chan string, 1)}
+	select {
+	case <-g.done:
+		return nil, errors.New("case closed")
+	default:
+	}
 	g.arrivals <- p
 	var v string
 	select {
 	case v = <-p.verdict:
+	case <-g.done:
+		return nil, errors.New("case closed")
 	case <-ctx.Done():
 		return nil, ctx.Err()
 	}
@@ -211,12 +229,18 @@ type logSink struct {
 type logHandler struct {
 	sink *logSink
 	am   string
+	w    *world
 }
 
-func (*logHandler) Enabled(_ context.Context, l slog.Level) bool { return l >= slog.LevelWarn }
+// Debug is enabled because the first thing sendLoop.loop() does, on the loop goroutine itself, is
+// logger.Debug("Starting send loop") through the per-Alertmanager logger: that is where the harness
+// registers the goroutine with verifhook (under a fresh id mapped to the world and the loop name), so
+// that the scheduler sees its "notifier.batchTaken" points. The drain run by the caller of stop() is
+// never registered and passes the point.
+func (*logHandler) Enabled(_ context.Context, l slog.Level) bool { return l >= slog.LevelDebug }
 func (hd *logHandler) WithGroup(string) slog.Handler             { return hd }
 func (hd *logHandler) WithAttrs(as []slog.Attr) slog.Handler {
-	n := &logHandler{sink: hd.sink, am: hd.am}
+	n := &logHandler{sink: hd.sink, am: hd.am, w: hd.w}
 	for _, a := range as {
 		if a.Key == "alertmanager" {
 			n.am = a.Value.String()
@@ -228,6 +252,11 @@ func (hd *logHandler) WithAttrs(as []slog.Attr) slog.Handler {
 func (hd *logHandler) Handle(_ context.Context, r slog.Record) error {
 	kind := ""
 	switch r.Message {
+	case "Starting send loop":
+		if u, err := url.Parse(hd.am); err == nil && hd.w != nil {
+			registerLoop(hd.w, loopName(u))
+		}
+		return nil
 	case "Alert notification queue full, dropping alerts":
 		kind = "full"
 	case "Alert batch larger than queue capacity, dropping alerts":
@@ -261,7 +290,71 @@ type setCfg struct {
 	drops map[int]bool
 }
 
+// ---------------------------------------------------------------- second gate: "notifier.batchTaken"
+
+// prepark is a loop goroutine parked between nextBatch() and sendAll().
+type prepark struct {
+	name    string
+	live    bool // it is the goroutine of the URL's running loop
+	release chan struct{}
+}
+
+type loopG struct {
+	w    *world
+	name string
+}
+
+var loopReg = struct {
+	mtx  sync.Mutex
+	next int
+	byID map[int]*loopG
+}{byID: map[int]*loopG{}}
+
+// registerLoop runs on a freshly started loop goroutine.
+func registerLoop(w *world, name string) {
+	loopReg.mtx.Lock()
+	loopReg.next++
+	id := loopReg.next
+	loopReg.byID[id] = &loopG{w, name}
+	loopReg.mtx.Unlock()
+	w.pmtx.Lock()
+	w.ids = append(w.ids, id)
+	w.pmtx.Unlock()
+	verifhook.Register(id)
+}
+
+// schedule is the verifhook scheduler: called on a registered goroutine at every point it reaches.
+func schedule(id int, point string) {
+	if point != "notifier.batchTaken" {
+		return
+	}
+	loopReg.mtx.Lock()
+	g := loopReg.byID[id]
+	loopReg.mtx.Unlock()
+	if g == nil {
+		return
+	}
+	w := g.w
+	w.pmtx.Lock()
+	if w.closed || !w.armed[g.name] {
+		w.pmtx.Unlock()
+		return
+	}
+	delete(w.armed, g.name)
+	w.pmtx.Unlock()
+	p := &prepark{name: g.name, release: make(chan struct{})}
+	w.parks <- p
+	<-p.release
+}
+
 type world struct {
+	pmtx   sync.Mutex
+	armed  map[string]bool // the next take of this URL's loop parks before encoding
+	closed bool
+	ids    []int
+	parks  chan *prepark
+	pre    map[string]*prepark // goroutines parked before encoding, at most one per URL
+
 	m       *notifier.Manager
 	reg     *prometheus.Registry
 	g       *gate
@@ -279,15 +372,16 @@ type world struct {
 var epochCtr int64
 
 func newWorld(cap, mb int, drain bool) *world {
-	w := &world{cap: cap, held: map[string][]*parked{}, liveReq: map[string]*parked{}, gdrops: map[int]bool{}}
+	w := &world{cap: cap, held: map[string][]*parked{}, liveReq: map[string]*parked{}, gdrops: map[int]bool{},
+		armed: map[string]bool{}, parks: make(chan *prepark, 64), pre: map[string]*prepark{}}
 	w.reg = prometheus.NewRegistry()
-	w.g = &gate{arrivals: make(chan *parked, 1024), epoch: atomic.AddInt64(&epochCtr, 1)}
+	w.g = &gate{arrivals: make(chan *parked, 1024), epoch: atomic.AddInt64(&epochCtr, 1), done: make(chan struct{})}
 	srvs.mtx.Lock()
 	srvs.epoch = w.g.epoch
 	srvs.rx = nil
 	srvs.mtx.Unlock()
 	w.sink = &logSink{}
-	logger := slog.New(&logHandler{sink: w.sink})
+	logger := slog.New(&logHandler{sink: w.sink, w: w})
 	w.m = notifier.NewManager(&notifier.Options{
 		QueueCapacity: cap, MaxBatchSize: mb, DrainOnShutdown: drain, Do: w.g.do, Registerer: w.reg,
 	}, model.UTF8Validation, logger)
@@ -470,23 +564,80 @@ func (w *world) amNames() []string {
 	return out
 }
 
-// awaitAll waits until a request of every URL in `want` has reached the gate; those become the parked
-// requests of the running loops.
-func (w *world) awaitAll(want map[string]bool, notes *[]string) {
+// isArmed reports whether the next take of the URL's running loop will park before encoding.
+func (w *world) isArmed(name string) bool {
+	w.pmtx.Lock()
+	defer w.pmtx.Unlock()
+	return w.armed[name]
+}
+
+// livePre reports whether the URL's running loop is parked before encoding.
+func (w *world) livePre(name string) bool {
+	p := w.pre[name]
+	return p != nil && p.live
+}
+
+// armedSnapshot must be taken BEFORE the action that lets loops run: an armed loop disarms itself when it
+// reaches the pause point.
+func (w *world) armedSnapshot() map[string]bool {
+	w.pmtx.Lock()
+	defer w.pmtx.Unlock()
+	out := map[string]bool{}
+	for n, a := range w.armed {
+		if a {
+			out[n] = true
+		}
+	}
+	return out
+}
+
+// awaitLoops waits until every loop in `names` has taken its next batch and blocked: a loop that was armed
+// (snapshot taken before the loops were let run) at "notifier.batchTaken", any other with its request at the
+// Options.Do gate.
+func (w *world) awaitLoops(names []string, armed map[string]bool, notes *[]string) {
+	want, wantPark := map[string]bool{}, map[string]bool{}
+	for _, n := range names {
+		if armed[n] {
+			wantPark[n] = true
+		} else {
+			want[n] = true
+		}
+	}
+	w.awaitAll(want, wantPark, true, notes)
+}
+
+// awaitAll waits until a request of every URL in `want` has reached the gate (those become the parked
+// requests of the running loops if `live`) and until the loop goroutine of every URL in `wantPark` is parked at
+// "notifier.batchTaken".
+func (w *world) awaitAll(want, wantPark map[string]bool, live bool, notes *[]string) {
 	deadline := time.After(waitTimeout)
-	for len(want) > 0 {
+	for len(want)+len(wantPark) > 0 {
 		select {
 		case p := <-w.g.arrivals:
 			w.held[p.name] = append(w.held[p.name], p)
 			if want[p.name] {
 				delete(want, p.name)
-				w.liveReq[p.name] = p
+				if live {
+					w.liveReq[p.name] = p
+				}
 			} else {
 				*notes = append(*notes, "unexpected:"+p.name+":"+showBatch(p.ids))
+			}
+		case p := <-w.parks:
+			if wantPark[p.name] && w.pre[p.name] == nil {
+				delete(wantPark, p.name)
+				p.live = true
+				w.pre[p.name] = p
+			} else {
+				*notes = append(*notes, "unexpected:"+p.name+":parked")
+				close(p.release)
 			}
 		case <-deadline:
 			var ns []string
 			for n := range want {
+				ns = append(ns, n)
+			}
+			for n := range wantPark {
 				ns = append(ns, n)
 			}
 			sort.Strings(ns)
@@ -509,6 +660,18 @@ func (w *world) pruneLive() {
 			delete(w.liveReq, n)
 		}
 	}
+	for n, p := range w.pre {
+		if !live[n] {
+			p.live = false
+		}
+	}
+	w.pmtx.Lock()
+	for n := range w.armed {
+		if !live[n] {
+			delete(w.armed, n)
+		}
+	}
+	w.pmtx.Unlock()
 }
 
 // sweep collects requests nobody waited for.
@@ -518,6 +681,9 @@ func (w *world) sweep(notes *[]string) {
 		case p := <-w.g.arrivals:
 			w.held[p.name] = append(w.held[p.name], p)
 			*notes = append(*notes, "unexpected:"+p.name+":"+showBatch(p.ids))
+		case p := <-w.parks:
+			*notes = append(*notes, "unexpected:"+p.name+":parked")
+			close(p.release)
 		default:
 			return
 		}
@@ -595,7 +761,16 @@ func (w *world) snapshot(res string, notes []string) string {
 	if lstr == "" {
 		lstr = "-"
 	}
-	return res + " | ams=" + ams + " | held=" + held + " | m=" + mstr + " | rx=" + rxs + " | log=" + lstr
+	var pn []string
+	for n := range w.pre {
+		pn = append(pn, n)
+	}
+	sort.Strings(pn)
+	pstr := strings.Join(pn, ",")
+	if pstr == "" {
+		pstr = "-"
+	}
+	return res + " | ams=" + ams + " | held=" + held + " | m=" + mstr + " | rx=" + rxs + " | log=" + lstr + " | pre=" + pstr
 }
 
 func (w *world) survivors(ids []int, tag string) int {
@@ -715,18 +890,19 @@ func (w *world) op(line string) string {
 			alerts = append(alerts, &notifier.Alert{Labels: labels.FromStrings(labels.AlertName, "a", "id", s)})
 		}
 		live := w.amNames()
+		armed := w.armedSnapshot()
 		w.m.Send(alerts...)
 		if !w.stopped && w.cap > 0 {
-			want := map[string]bool{}
+			var want []string
 			for _, name := range live {
-				if w.liveReq[name] != nil {
-					continue // that loop is parked at the gate: the alerts just queue up
+				if w.liveReq[name] != nil || w.livePre(name) {
+					continue // that loop is parked at one of the gates: the alerts just queue up
 				}
 				if w.survivors(ids, name[:strings.IndexByte(name, '.')]) > 0 {
-					want[name] = true
+					want = append(want, name)
 				}
 			}
-			w.awaitAll(want, &notes)
+			w.awaitLoops(want, armed, &notes)
 		}
 		return w.snapshot("ok", notes)
 
@@ -753,10 +929,11 @@ func (w *world) op(line string) string {
 		if isLive {
 			delete(w.liveReq, name)
 		}
+		armed := w.armedSnapshot()
 		p.verdict <- v
 		if isLive && q > 0 {
 			// the loop is parked, so the gauge is exact: more alerts are queued, the loop must come back
-			w.awaitAll(map[string]bool{name: true}, &notes)
+			w.awaitLoops([]string{name}, armed, &notes)
 		} else {
 			// wait until the outcome is counted (sent, or dropped)
 			deadline := time.Now().Add(waitTimeout)
@@ -774,6 +951,36 @@ func (w *world) op(line string) string {
 		}
 		return w.snapshot("rel:"+showBatch(p.ids)+":"+v, notes)
 
+	case len(t) == 2 && t[0] == "park":
+		name := t[1]
+		running := false
+		for _, n := range w.amNames() {
+			running = running || n == name
+		}
+		if w.stopped || w.cap == 0 || !running || w.isArmed(name) || w.pre[name] != nil {
+			return w.snapshot("none", nil)
+		}
+		w.pmtx.Lock()
+		w.armed[name] = true
+		w.pmtx.Unlock()
+		return w.snapshot("ok", nil)
+
+	case len(t) == 2 && t[0] == "unpark":
+		name := t[1]
+		p := w.pre[name]
+		if p == nil {
+			return w.snapshot("none", nil)
+		}
+		delete(w.pre, name)
+		before := len(w.held[name])
+		close(p.release)
+		w.awaitAll(map[string]bool{name: true}, nil, p.live, &notes)
+		got := "?"
+		if hs := w.held[name]; len(hs) > before {
+			got = showBatch(hs[len(hs)-1].ids)
+		}
+		return w.snapshot("unpark:"+got, notes)
+
 	case len(t) == 2 && t[0] == "stop":
 		if w.stopped {
 			return w.snapshot("stopped", nil)
@@ -784,6 +991,12 @@ func (w *world) op(line string) string {
 		}
 		w.stopped = true
 		w.liveReq = map[string]*parked{}
+		for _, p := range w.pre {
+			p.live = false
+		}
+		w.pmtx.Lock()
+		w.armed = map[string]bool{}
+		w.pmtx.Unlock()
 		if res == "" {
 			res = "ok"
 		}
@@ -794,6 +1007,21 @@ func (w *world) op(line string) string {
 
 // close ends a case: stop the manager, fail everything still in flight, drop the connections.
 func (w *world) close() {
+	w.pmtx.Lock()
+	w.closed = true
+	w.armed = map[string]bool{}
+	ids := w.ids
+	w.pmtx.Unlock()
+	for _, p := range w.pre {
+		close(p.release)
+	}
+	w.pre = map[string]*prepark{}
+	close(w.g.done)
+	loopReg.mtx.Lock()
+	for _, id := range ids {
+		delete(loopReg.byID, id)
+	}
+	loopReg.mtx.Unlock()
 	if !w.stopped {
 		w.runBlocking(func() { w.m.Stop(); <-w.runDone }, "x")
 		w.stopped = true
@@ -939,6 +1167,18 @@ func genCase(c *h.Ctx, r *h.Rng, id string) {
 	for i := range sets {
 		emit(fmt.Sprintf("sync %d %s %s", i, showIDs(randEndpoints()), randPattern()))
 	}
+	usePark := r.Chance(30) // second gate: takes parked before encoding, adds / set changes / Stop in between
+	if usePark {
+		c.Count("case-with-park")
+	}
+	parkedNames := func() []string {
+		var names []string
+		for n := range w.pre {
+			names = append(names, n)
+		}
+		sort.Strings(names)
+		return names
+	}
 	nops := int(r.Range(5, 26))
 	stopAt := -1
 	if r.Chance(55) {
@@ -951,9 +1191,28 @@ func genCase(c *h.Ctx, r *h.Rng, id string) {
 			c.Count("op-stop")
 			continue
 		}
+		if usePark {
+			y := r.Intn(100)
+			if live := w.amNames(); y < 15 && len(live) > 0 {
+				emit("park " + h.Pick(r, live))
+				c.Count("op-park")
+				continue
+			}
+			if pn := parkedNames(); y >= 15 && y < 32 && len(pn) > 0 {
+				emit("unpark " + h.Pick(r, pn))
+				c.Count("op-unpark")
+				continue
+			}
+		}
 		x := r.Intn(100)
 		switch {
 		case x < 45:
+			for _, n := range parkedNames() {
+				if w.pre[n].live {
+					c.Count("send-while-parked-before-encode")
+					break
+				}
+			}
 			n := int(r.Range(1, 3))
 			if r.Chance(25) {
 				n = cp + int(r.Range(0, int64(cp)+3))
@@ -1037,6 +1296,10 @@ func genCase(c *h.Ctx, r *h.Rng, id string) {
 	// flush what is still parked (most of the time)
 	if r.Chance(75) {
 		for round := 0; round < 40; round++ {
+			if pn := parkedNames(); len(pn) > 0 {
+				emit("unpark " + pn[0])
+				continue
+			}
 			var names []string
 			for n, ps := range w.held {
 				if len(ps) > 0 {
@@ -1067,6 +1330,7 @@ func genCase(c *h.Ctx, r *h.Rng, id string) {
 func main() {
 	c := h.Init()
 	startServers()
+	verifhook.SetScheduler(schedule)
 	if v, ok := c.Extra["wait_ms"]; ok {
 		if n, err := strconv.Atoi(v); err == nil {
 			waitTimeout = time.Duration(n) * time.Millisecond
